@@ -170,7 +170,7 @@ impl Substitute for syn::PatOr {
             .map(|case| case.substitute(substitutions))
             .multi_cartesian_product()
             .map(|cases| Self {
-                cases: cases.into_iter().collect(),
+                cases: repunctuate(&self.cases, cases),
                 ..self.clone()
             })
             .collect()
@@ -282,7 +282,7 @@ impl Substitute for syn::PatSlice {
             .map(|elem| elem.substitute(substitutions))
             .multi_cartesian_product()
             .map(|elems| Self {
-                elems: elems.into_iter().collect(),
+                elems: repunctuate(&self.elems, elems),
                 ..self.clone()
             })
             .collect()
@@ -318,7 +318,7 @@ impl Substitute for syn::PatTuple {
             .map(|elem| elem.substitute(substitutions))
             .multi_cartesian_product()
             .map(|elems| Self {
-                elems: elems.into_iter().collect(),
+                elems: repunctuate(&self.elems, elems),
                 ..self.clone()
             })
             .collect()
